@@ -9,6 +9,7 @@ require (
 	github.com/ava-labs/hypersdk/examples/morpheusvm v0.0.0-00010101000000-000000000000
 	github.com/cockroachdb/pebble v0.0.0-20230928194634-aa077af62593
 	github.com/prometheus/client_golang v1.16.0
+	google.golang.org/protobuf v1.35.2
 )
 
 require (
@@ -71,7 +72,6 @@ require (
 	google.golang.org/genproto/googleapis/api v0.0.0-20240604185151-ef581f913117 // indirect
 	google.golang.org/genproto/googleapis/rpc v0.0.0-20240827150818-7e3bb234dfed // indirect
 	google.golang.org/grpc v1.66.0 // indirect
-	google.golang.org/protobuf v1.35.2 // indirect
 	gopkg.in/natefinch/lumberjack.v2 v2.0.0 // indirect
 	gopkg.in/yaml.v3 v3.0.1 // indirect
 )
